@@ -181,10 +181,10 @@ def check_expectation(ctx, gs, spec, n, npart, tag):
 def plan(ctx):
     """(variant, singles, [energies], [(order, class)], [(order, n_particles)])"""
     if ctx.quick():
-        return [("mp", False, [0, 1, 2, 3], [(1, 2), (2, 1), (2, 2), (2, 3), (3, 1)], [(1, 1), (2, 1), (2, 2)]),
+        return [("mp", False, [0, 1, 2, 3], [(1, 2), (2, 1), (2, 2), (2, 3), (3, 1)], [(1, 1), (2, 1), (2, 2), (3, 2)]),
                 ("mp", True, [1, 2], [(1, 1), (2, 1)], [(1, 1)]),
                 ("re", False, [0, 1, 2], [(1, 2), (2, 1), (2, 2)], [])]
-    return [("mp", False, [0, 1, 2, 3, 4], [(1, 2), (2, 1), (2, 2), (2, 3), (2, 4), (3, 1), (3, 2)], [(1, 1), (2, 1), (2, 2), (3, 1)]),
+    return [("mp", False, [0, 1, 2, 3, 4], [(1, 2), (2, 1), (2, 2), (2, 3), (2, 4), (3, 1), (3, 2)], [(1, 1), (2, 1), (2, 2), (3, 1), (3, 2), (4, 1)]),
             ("mp", True, [1, 2, 3], [(1, 1), (1, 2), (2, 1), (2, 2), (3, 1)], [(1, 1), (2, 1), (1, 2)]),
             ("re", False, [0, 1, 2, 3], [(1, 2), (2, 1), (2, 2), (2, 3), (3, 1)], [(2, 1)]),
             ("re", True, [1, 2], [(1, 1), (2, 1), (2, 2)], [])]
